@@ -94,6 +94,17 @@ def envAfter (env : Env) : List Step → Env
   | .set i v :: rest => envAfter (env.set i v) rest
   | .ev _ :: rest => envAfter env rest
 
+/-- what happens to head `h` on event `e` after the history `pre` -/
+def outcomeAfter (rx : Rx) (sa : String → Option (List (String × Val))) (env : Env) (h : Head) (pre : List Step) (e : Ev) :
+    Outcome :=
+  (stepHead rx sa (runState rx sa env h pre).1 (runState rx sa env h pre).2 (.ev e)).2.2
+
+/-- the `set` steps of a history -/
+def setsOf : List Step → List Step
+  | [] => []
+  | .set i v :: rest => .set i v :: setsOf rest
+  | .ev _ :: rest => setsOf rest
+
 /-! ### The variant that keeps the evaluated reference event per head (what the code must NOT do) -/
 
 /-- like `stepHead`, but the reference event is evaluated at the first comparison and kept until the head moves -/
